@@ -20,12 +20,27 @@ from .c05 import check_len_octets, may_raise
 from ..raises import Esc
 
 ASN1 = "sansldap.asn1"
-# writer-side raisers that are preconditions on caller-supplied tags (the library's own tags are
-# checked to be valid constants by C05 P2): reported as notes, not failures
-PRECONDITION_SITES = {
-    ("_pack_asn1", "raise ValueError('tag_class must be between 0 and 3')"): "explicit argument check",
-    ("_pack_asn1", "b_asn1_data.append(identifier_octets)"): "identifier octet is in range iff the tag number is >= 0 (constant tags: C05 P2)",
-}
+def packer_precondition(model: Model, mr, site) -> tuple:
+    """A raiser inside the TLV packer that can only fire for an invalid caller-supplied tag: the explicit
+    range check on the tag class, or a byte store that is in range as soon as the tag number is >= 0 and
+    the class in 0..3 (re-evaluated under exactly those assumptions)."""
+    from ..anchors import asn1 as asn1_anchors
+    from ..facts import FactFlow
+    an = asn1_anchors(model)
+    fi = an.packer
+    if site["function"] != fi.qualname:
+        return False, ""
+    cls_p, num_p = an.packer_params()
+    if cls_p is None or num_p is None:
+        return False, "tag parameters not identified"
+    init = frozenset({("INT", cls_p, 0, 3), ("GE0", cls_p), ("INT", num_p, 0, float("inf")), ("GE0", num_p)})
+    fl = FactFlow(fi.node, ival=lambda e, facts: mr.ival(e, facts, fi), init_facts=init)
+    for n in walk_no_nested(fi.node):
+        if isinstance(n, ast.Call) and n.lineno == site["line"] and isinstance(n.func, ast.Attribute) and n.func.attr == "append" and n.args:
+            lo, hi = mr.ival(n.args[0], fl.facts_at.get(id(n), frozenset()), fi)
+            if lo >= 0 and hi <= 255:
+                return True, f"in range [{lo}, {hi}] once the tag class is in 0..3 and the tag number >= 0 (constant tags: C05 P2)"
+    return False, ""
 
 
 def consts_in(fi, pred) -> List[int]:
@@ -58,13 +73,13 @@ def check(model: Model, run: Run) -> None:
             continue
         if s["verdict"] == "deferred":
             continue
-        key = (fn, s["construct"])
         if s["kind"] == "enum-conversion" and s["exception"] == "ValueError":
             run.ob("A1-primitive-totality", True, {"function": fn, "construct": s["construct"], "why": "ValueError is the documented rejection of an unknown tag class/number/enum value"})
             continue
-        if key in PRECONDITION_SITES:
-            run.note(f"precondition: {fn}: {s['construct']}: {PRECONDITION_SITES[key]}")
-            run.ob("A1-primitive-totality", True, {"function": fn, "construct": s["construct"], "why": "caller precondition: " + PRECONDITION_SITES[key]})
+        okp, whyp = packer_precondition(model, mr, s) if s["kind"] == "bytearray-store" else (False, "")
+        if okp:
+            run.note(f"precondition: {fn}: {s['construct']}: {whyp}")
+            run.ob("A1-primitive-totality", True, {"function": fn, "construct": s["construct"], "why": "caller precondition: " + whyp})
             continue
         if s["kind"] == "bytearray-store" and "len(" in s["construct"]:
             ok, why = check_len_octets(model, Esc("ValueError", s["function"], s["construct"], s["line"], "implicit"))
@@ -81,16 +96,14 @@ def check(model: Model, run: Run) -> None:
     sibling_constants(model, run)
 
 
-def _find(model: Model, name: str):
-    q = f"{ASN1}.{name}"
-    return model.func(q)
 
 
 def sibling_constants(model: Model, run: Run) -> None:
-    w = _find(model, "_pack_asn1")
-    r = _find(model, "_read_asn1_header")
-    wn = _find(model, "_pack_asn1_octet_number")
-    rn = _find(model, "_unpack_asn1_octet_number")
+    from ..anchors import asn1 as asn1_anchors
+    an = asn1_anchors(model)
+    w, r, wn, rn = an.packer, an.header, an.octet_number_writer, an.octet_number_reader
+    if wn is None or rn is None:
+        raise AnalysisError("multi-octet tag-number helpers not identified")
 
     def compares(fi, var_pred):
         out = []
@@ -121,7 +134,7 @@ def sibling_constants(model: Model, run: Run) -> None:
     rmask = [c for c, n in binops(r, ast.BitAnd) if c == 31]
     wset = [c for c, n in binops(w, ast.BitOr) if c == 31]
     if not wt or not rt:
-        raise AnalysisError("tag-number form tests not found in _pack_asn1/_read_asn1_header")
+        raise AnalysisError("tag-number form tests not found in the TLV packer / header routine")
     op, k, node = wt[0]
     w_first_long = {"Lt": k, "LtE": k + 1, "Gt": k + 1, "GtE": k}[op]      # smallest number written in the long form
     ok = w_first_long == rt[0][1] == 31 and bool(rmask) and bool(wset)
@@ -134,7 +147,7 @@ def sibling_constants(model: Model, run: Run) -> None:
     wbit = [c for c, n in binops(w, ast.BitOr) if c == 128]
     rindef = [c for c in compares(r, lambda e: isinstance(e, ast.Name) and e.id == "length") if c[0] == "Eq" and c[1] == 128]
     if not wl:
-        raise AnalysisError("length form test not found in _pack_asn1")
+        raise AnalysisError("length form test not found in the TLV packer")
     first_long = wl[0][1] if wl[0][0] == "Lt" else wl[0][1] + 1
     ok = first_long == 128 and bool(rbit) and bool(rcnt) and bool(wbit)
     ob("S2-length-form-threshold", ok, f"writer uses the long length form from {first_long}; reader tests bit {rbit[:1]} and counts with mask {rcnt[:1]}: expected 128/128/127",
@@ -153,10 +166,10 @@ def sibling_constants(model: Model, run: Run) -> None:
     ok = ((bool(wmask) and bool(wsh)) or bool(w_tobytes)) and (bool(rsh8) or bool(r_frombytes))
     ob("S2-length-octet-width", ok, "writer/reader disagree on 8 bits per length octet", w.node, w, {"writer_mask255": bool(wmask), "writer_shift8": bool(wsh), "reader_shift8": bool(rsh8)})
     # S3: class / constructed bit positions
-    wcls = [c for c, n in binops(w, ast.LShift) if c == 6]
-    wcon = [c for c, n in binops(w, ast.LShift) if c == 5]
+    wcls = [c for c, n in binops(w, ast.LShift) if c == 6] + [c for c, n in binops(w, ast.Mult) if c == 64]
+    wcon = [c for c, n in binops(w, ast.LShift) if c == 5] + [c for c, n in binops(w, ast.Mult) if c == 32]
     rcls = [c for c, n in binops(r, ast.BitAnd) if c == 192]
-    rclsh = [c for c, n in binops(r, ast.RShift) if c == 6]
+    rclsh = [c for c, n in binops(r, ast.RShift) if c == 6] + [c for c, n in binops(r, ast.FloorDiv) if c == 64]
     rcon = [c for c, n in binops(r, ast.BitAnd) if c == 32]
     ok = bool(wcls) and bool(wcon) and bool(rcls) and bool(rclsh) and bool(rcon)
     ob("S3-identifier-bit-fields", ok, "writer shifts (class<<6, constructed<<5) and reader masks (0xC0>>6, 0x20) do not agree", w.node, w,
@@ -172,8 +185,10 @@ def sibling_constants(model: Model, run: Run) -> None:
     ob("S4-base128-tag-number", ok, "writer and reader of multi-octet tag numbers disagree on 7 data bits + continuation bit", wn.node, wn,
        {"writer": [bool(w7), bool(wsh7), bool(wcont)], "reader": [bool(r7), bool(rsh7), bool(rcont)]})
     # S5: boolean constants
-    wb = _find(model, "_pack_asn1_boolean")
-    rb = _find(model, "_read_asn1_boolean")
+    wb = an.writer_helper.get("write_boolean")
+    rb = an.reader_helper.get("read_boolean")
+    if wb is None or rb is None:
+        raise AnalysisError("boolean helpers not identified")
     wconsts = sorted({n.value for n in ast.walk(wb.node) if isinstance(n, ast.Constant) and isinstance(n.value, bytes)})
     ok = wconsts == [b"\x00", b"\xff"]
     ife = [n for n in ast.walk(wb.node) if isinstance(n, ast.IfExp)]
